@@ -31,7 +31,7 @@ C.reexec_under_impl_python()
 
 CID = "C10"
 AREA = "rset"
-VO = ["props/C10.vo", "rset/RSetModel.vo", "rset/RSetSpec.vo", "rset/RSetHist.vo", "rset/RSetThm.vo", "rset/RSetHistThm.vo", "rset/RSetLit.vo", "rset/RSetLitThm.vo", "rset/RSetHeapq.vo", "rset/RSetHeapqThm.vo", "rset/RSetHist2.vo", "rset/RSetHistThm2.vo",
+VO = ["props/C10.vo", "rset/RSetModel.vo", "rset/RSetSpec.vo", "rset/RSetHist.vo", "rset/RSetThm.vo", "rset/RSetHistThm.vo", "rset/RSetLit.vo", "rset/RSetLitThm.vo", "rset/RSetHeapq.vo", "rset/RSetHeapqThm.vo", "rset/RSetHist2.vo", "rset/RSetHistThm2.vo", "rset/RSetHistThm3.vo",
       "rset/RSetGenBase.vo", "gen/RSetGen.vo", "rset/RSetGenThm.vo"]
 E_MODEL_FIRST, E_MODEL_LAST, E_SPEC, E_TAGGED, E_LITERAL, E_MODEL_PY, E_HIST_FIRST, E_HIST_LAST, E_HIST_SPEC, E_HIST_PY, E_MILD = 0, 1, 2, 3, 4, 5, 10, 11, 12, 13, 14
 
@@ -412,11 +412,16 @@ def enc_tagged(s):
 
 
 def impl_tagged(s):
-    return guarded(lambda: impl_tagged_(s))
+    """-> (first listing as the model encodes it, [second listing, third listing, count()] or None)"""
+    r = guarded(lambda: (impl_tagged_(s), LATER[0]))
+    if isinstance(r, tuple):
+        return r
+    return r, None
 
 
 def impl_tagged_(s):
     from dateutil import rrule as R
+    LATER[0] = None
     try:
         rs = R.rruleset(cache=bool(s.get("cache")))
         for t, m in s["rr"]:
@@ -427,13 +432,49 @@ def impl_tagged_(s):
             rs.exrule(build_member(m, aware=t))
         for t, z in s["exd"]:
             rs.exdate(to_dt(z, t))
-        out = [to_z(d) for d in rs]
-        ln = rs._len
-        return [1, -1 if ln is None else ln] + out
     except TypeError:
         return [2]
     except Exception as ex:
         return ["EXC", type(ex).__name__]
+    try:
+        out = [to_z(d) for d in rs]
+        ln = rs._len
+        first = [1, -1 if ln is None else ln] + out
+    except TypeError:
+        first = [2]
+    except Exception as ex:
+        return ["EXC", type(ex).__name__]
+    # the same object again: a second and a third listing, then count() -- every later observation has to
+    # repeat the first one (the uncached set raises TypeError every time)
+    later = []
+    for _i in range(2):
+        try:
+            later.append([to_z(d) for d in rs])
+        except TypeError:
+            later.append("TypeError")
+        except Exception as ex:
+            later.append("EXC:" + type(ex).__name__)
+    try:
+        c = rs.count()
+        later.append("None" if c is None else c)
+    except TypeError:
+        later.append("TypeError")
+    except Exception as ex:
+        later.append("EXC:" + type(ex).__name__)
+    LATER[0] = later
+    return first
+
+
+LATER = [None]
+
+
+def expected_later(first):
+    """what the second and third listing and count() must be, given the first listing"""
+    if first == [2]:
+        return ["TypeError", "TypeError", "TypeError"]
+    if isinstance(first, list) and first and first[0] == 1:
+        return [first[2:], first[2:], len(first) - 2]
+    return None
 
 
 # ------------------------------------------------------------------------------------------
@@ -757,7 +798,16 @@ def m_stale_iterator(payload):
     return i is not None and i < at
 
 
-MATCHERS = {"stale_iterator_resumed": m_stale_iterator}
+def m_raising_set(payload):
+    """F-C10-raise: a CACHED rruleset whose generator raises TypeError (naive/aware mixture; the model predicts the
+    TypeError) lists TypeError, TypeError, [] and count() None -- exactly that pattern, nothing else"""
+    inp = payload.get("input") or {}
+    return (str(payload.get("kind", "")).startswith("set whose generator raises TypeError")
+            and inp.get("cache") is True and payload.get("first") == [2] and payload.get("model_first") == [2]
+            and payload.get("later") == ["TypeError", [], "None"])
+
+
+MATCHERS = {"stale_iterator_resumed": m_stale_iterator, "raising_set_generator": m_raising_set}
 
 
 # ------------------------------------------------------------------------------------------
@@ -902,10 +952,21 @@ def worker_(job):
                 break
             s = gen_tagged(r)
             a = enc_tagged(s)
-            im = impl_tagged(s)
+            im, later = impl_tagged(s)
             mo = o.call(E_TAGGED, a)
             st["evaluations"] += 1
             bump("tagged: %s" % ("TypeError" if im == [2] else "ok"))
+            exp = expected_later(im)
+            if later is not None and exp is not None and later != exp:
+                js = {"rr": [[t, m["elems"]] for t, m in s["rr"]], "rd": s["rd"],
+                      "exr": [[t, m["elems"]] for t, m in s["exr"]], "exd": s["exd"], "cache": s["cache"]}
+                st["spec_diff"] += 1
+                bump("tagged: later listings differ from the first (cache=%s, first=%s)"
+                     % (s["cache"], "TypeError" if im == [2] else "ok"))
+                viol.append(({"kind": ("set whose generator raises TypeError: later listings / count() differ from the first "
+                                       "listing (the uncached set raises TypeError every time)") if im == [2] else
+                                      "later listings / count() of the same set differ from its first listing",
+                              "input": js, "first": im, "later": later, "expected_later": exp, "model_first": mo}, True))
             if im != mo:
                 st["model_diff"] += 1
                 js = {"rr": [[t, m["elems"]] for t, m in s["rr"]], "rd": s["rd"],
@@ -989,7 +1050,47 @@ def check_history(o, h, kind, st, viol, samples, bump, shrink=True):
         samples.append({"stream": kind, "input": hist_json(h), "impl": im, "model": mf, "spec": sp})
 
 
-ANCHOR_RANGES = [(80, 147), (1326, 1413)]   # rrule.py: _invalidates_cache + rrulebase cache; rruleset
+def anchor_ranges(path):
+    """the anchored line ranges of rrule.py, derived from the AST of the file under test (function / class
+    spans), never from constants: the decorator _invalidates_cache, the cache machinery of rrulebase
+    (__init__, __iter__, _invalidate_cache, _iter_cached) and the whole class rruleset.  Also the lines that
+    the streams are NOT expected to execute, each with its reason, and the span of rruleset._iter, in which
+    every statement must be executed (a floor: a missing line there fails the check)."""
+    import ast
+    src = open(path).read()
+    mod = ast.parse(src)
+    span = lambda n: (min([n.lineno] + [d.lineno for d in getattr(n, "decorator_list", [])]), n.end_lineno)
+    top = {n.name: n for n in mod.body if isinstance(n, (ast.FunctionDef, ast.ClassDef))}
+    base, rset = top["rrulebase"], top["rruleset"]
+    bm = {n.name: n for n in base.body if isinstance(n, ast.FunctionDef)}
+    rm = {n.name: n for n in rset.body if isinstance(n, (ast.FunctionDef, ast.ClassDef))}
+    gm = {n.name: n for n in rm["_genitem"].body if isinstance(n, ast.FunctionDef)}
+    ranges = [("_invalidates_cache", span(top["_invalidates_cache"]))]
+    ranges += [("rrulebase." + k, span(bm[k])) for k in ("__init__", "__iter__", "_invalidate_cache", "_iter_cached")]
+    ranges.append(("rruleset", span(rset)))
+    dead = {}
+    # the else-branch of `if self.genlist[0] is self:` in _genitem.__next__ (remove + heapify): _iter only ever
+    # advances the root of a heap list, so the branch is unreachable from _iter (RSetLitThm.v)
+    for n in ast.walk(gm["__next__"]):
+        if isinstance(n, ast.If) and n.orelse:
+            for st in n.orelse:
+                for x in ast.walk(st):
+                    if hasattr(x, "lineno"):
+                        dead[x.lineno] = "_genitem.__next__: remove + heapify branch, unreachable from _iter"
+    for nm in ("__gt__", "__eq__"):
+        if nm in gm:
+            for st in gm[nm].body:
+                dead[st.lineno] = "_genitem.%s is never called by _iter or heapq" % nm
+    for n in ast.walk(bm["_invalidate_cache"]):
+        if isinstance(n, ast.If) and isinstance(n.test, ast.Call) and getattr(n.test.func, "attr", "") == "locked":
+            for st in n.body:
+                dead[st.lineno] = "releases a lock left held: never in single-threaded histories"
+    inner = [n for n in top["_invalidates_cache"].body if isinstance(n, ast.FunctionDef)]
+    for st in top["_invalidates_cache"].body:
+        if isinstance(st, ast.Return):
+            dead[st.lineno] = "decorator body: runs at import time"
+    return {"ranges": ranges, "expected_missing": dead, "iter_span": span(rm["_iter"]),
+            "inner_defs": [n.lineno for n in inner]}
 
 
 def measure_anchor_coverage(fn):
@@ -1010,19 +1111,27 @@ def measure_anchor_coverage(fn):
         NO_C01 = False
     try:
         an = cov._analyze(path)
-        inr = lambda n: any(a <= n <= b for a, b in ANCHOR_RANGES)
+        info = anchor_ranges(path)
+        rngs = [r for (_n, r) in info["ranges"]]
+        inr = lambda n: any(a <= n <= b for a, b in rngs)
         stmts = sorted(n for n in an.statements if inr(n))
         src_lines = open(path).read().splitlines()
         is_def = lambda n: src_lines[n - 1].strip().startswith(("def ", "@", "class ", "next = "))
         stmts = [n for n in stmts if not is_def(n)]     # definitions run at import time
         missing = sorted(n for n in an.missing if inr(n) and not is_def(n))
-        return res, {"available": True, "file": "src/dateutil/rrule.py", "ranges": ANCHOR_RANGES,
+        unexpected = [n for n in missing if n not in info["expected_missing"]]
+        a, b = info["iter_span"]
+        return res, {"available": True, "file": "src/dateutil/rrule.py",
+                     "ranges": [[nm, r[0], r[1]] for (nm, r) in info["ranges"]],
+                     "ranges_derived_from": "AST of the file under test (function / class spans)",
+                     "rruleset_iter_span": [a, b],
                      "statements_in_ranges": len(stmts), "missing_statements_in_ranges": len(missing),
                      "missing_lines": missing[:40],
-                     "note": "1343-1344 are the dead else-branch of _genitem.__next__ (remove + heapify), "
-                             "unreachable from _iter; 1352/1355 are _genitem.__gt__/__eq__, never called by _iter or heapq; "
-                             "120 releases a lock left held (never in one thread); 91 runs at import; "
-                             "definitions (executed at import) are not counted"}
+                     "expected_missing": {str(k): v for k, v in sorted(info["expected_missing"].items())},
+                     "unexpected_missing_lines": unexpected[:40],
+                     "missing_in_rruleset_iter": [n for n in missing if a <= n <= b],
+                     "note": "definitions (executed at import) are not counted; a missing statement inside "
+                             "rruleset._iter, or any missing line without a stated reason, fails the check"}
     except Exception as ex:
         return res, {"available": False, "error": repr(ex)}
 
@@ -1085,7 +1194,9 @@ def replay(path):
              "exr": [(t, {"kind": "list", "elems": e}) for t, e in inp["exr"]], "exd": [tuple(x) for x in inp["exd"]],
              "cache": inp.get("cache")}
         print("input     ", json.dumps(inp))
-        print("impl      ", impl_tagged(s), " ([2] = TypeError)")
+        im, later = impl_tagged(s)
+        print("impl      ", im, " ([2] = TypeError)")
+        print("later     ", later, " expected", expected_later(im), " (second listing, third listing, count())")
         print("model     ", o.call(E_TAGGED, enc_tagged(s)))
     else:
         print("replay names a broken obligation or a non-replayable input:", json.dumps(data, indent=1)[:3000])
@@ -1162,10 +1273,12 @@ def main():
         t_pool = time.time()
         asyncs = [(job, pool.apply_async(worker, (job,))) for job in [("cov", "0", 0, tier)] + jobs]
         jobs, results = [], []
+        timed_out = []
         for job, ar in asyncs:
             try:
                 res = ar.get(timeout=max(1.0, budget - (time.time() - t_pool)))
             except multiprocessing.TimeoutError:
+                timed_out.append(list(job))
                 res = {"stats": {"evaluations": 0, "model_diff": 0, "spec_diff": 0, "tiebreak_diff": 0,
                                  "nontrivial_keys": [], "hist": {}},
                        "violations": [({"kind": "shard did not finish within the wall-clock budget (stall in the "
@@ -1193,6 +1306,37 @@ def main():
             viols += res["violations"]
             if len(samples) < 10:
                 samples += res["samples"][:2]
+    # ---- floors: every stream must have evaluated what was planned, the measured shard must execute
+    # every statement of rruleset._iter and leave no line unexecuted without a stated reason
+    shard_report = {"available": False}
+    if have_oracle:
+        floors = {}
+        for kind, (shards, n) in plan.items():
+            floors[kind] = shards * n
+        floors["corpus"] = len(corpus_cases())
+        floors["small"] = 32000 if tier == "quick" else 53000
+        floors["smallhist"] = 24000 if tier == "quick" else 278000
+        cov_n = {"sets": 60, "hist": 120, "stale": 60, "tagged": 60}
+        short = {k: {"floor": v, "evaluated": per_stream.get(k, 0)} for k, v in floors.items()
+                 if per_stream.get(k, 0) < v}
+        shard_report = {"available": True, "wall_clock_budget_s": budget, "pool_processes": procs,
+                        "planned_shards": {k: {"shards": sh, "cases_per_shard": n} for k, (sh, n) in plan.items()},
+                        "coverage_shard_cases": cov_n,
+                        "floors_per_stream": floors, "evaluated_per_stream": dict(per_stream),
+                        "streams_below_floor": short,
+                        "shards_timed_out": timed_out, "stall_breaks": "a shard stops after 3 STALL outcomes "
+                        "(each already a concrete violation); it then evaluates fewer cases than planned and the "
+                        "stream falls below its floor"}
+        if short:
+            viols.append(({"kind": "a stream evaluated fewer cases than its floor (truncated shard)", "input": None,
+                           "streams_below_floor": short}, False))
+        if cov_summary.get("available"):
+            bad = {"missing_in_rruleset_iter": cov_summary.get("missing_in_rruleset_iter"),
+                   "unexpected_missing_lines": cov_summary.get("unexpected_missing_lines")}
+            if bad["missing_in_rruleset_iter"] or bad["unexpected_missing_lines"]:
+                viols.append(({"kind": "coverage floor: statements of the anchored code (rruleset / rrulebase cache) are "
+                                       "never executed by the streams", "input": None, "lines": bad,
+                               "ranges": cov_summary.get("ranges")}, False))
     viols.sort(key=lambda v: not v[1])      # concrete failing inputs first
     for payload, concrete in viols:
         verdict.violation(payload, concrete=concrete)
@@ -1263,17 +1407,30 @@ def main():
         "traces_validated_against_impl": per_stream.get("hist", 0) + per_stream.get("stale", 0) + per_stream.get("smallhist", 0),
         "partial_theorems": partial,
         "differential_only": ["naive/aware TypeError class (tag_error of RSetModel.v is compared with the code, "
-                              "no theorem)", "lock handling of _iter_cached (not modelled; single-threaded histories)"],
+                              "no theorem); later listings of a raising cached set: finding F-C10-raise",
+                              "lock handling of _iter_cached (not modelled; single-threaded histories)",
+                              "RSetHist.v's model of __iter__/_iter_cached/query loops (see history_model_tie)"],
         "known_findings_hit": verdict.known_hits,
         "translator": translator,
         "model_tie": "rruleset (_genitem.__init__/__next__/comparisons, __init__, the four mutators through "
                      "_invalidates_cache, _iter) and rrulebase.__init__/_invalidate_cache are regenerated from /repo's AST by "
                      "harness/gen_rset.py on this run (coq/gen/RSetGen.v) and proved equal to the hand-written model for all "
                      "inputs (rset/RSetGenThm.v, C10_gen_*); accepted subset and call table: notes/rset.md",
-        "guarded_theorems": {"C10_rset_history_mild": "mild_history: stale iterators may be advanced as long as they do not "
-                                                      "change _cache_complete/_cache_gen/_len (sharper than fresh_history)",
-                             "C10_rset_history": "fresh_history ops = true (no next() on an iterator obtained "
-                                                 "before a later mutator); complement = finding F-C10-stale",
+        "history_model_tie": "the history theorems rest on RSetHist.v's hand model of rrulebase.__iter__/_iter_cached "
+                             "(single-threaded, no lock) and of the query loops; this is a SECOND hand model of code that "
+                             "C11/C12 model separately (RCacheModel/RQueryModel, regenerated by gen_rcache.py); it is neither "
+                             "regenerated nor proved equal to those models and is tied to the implementation by the differential "
+                             "history streams of this check only. Regenerated and proved for the history model: __init__, the four "
+                             "mutators, _invalidate_cache (C10_gen_init_is_model, C10_gen_mutators_are_model, "
+                             "C10_gen_invalidate_is_model)",
+        "guarded_theorems": {"C10_rset_history_mild": "HEADLINE. mild_history: every next() names an existing iterator and no "
+                                                      "next() on an iterator obtained before a later mutator changes "
+                                                      "_cache_complete/_cache_gen/_len; decided by running the model (not an "
+                                                      "input-level condition); guard = negation of the precondition of the "
+                                                      "F-C10-stale matcher (mild_in_model, same extracted function)",
+                             "C10_rset_history": "input-level corollary: fresh_history ops = true (no next() on an iterator obtained "
+                                                 "before a later mutator) implies mild_history (C10_fresh_implies_mild); WIDER than "
+                                                 "F-C10-stale: also excludes never-advanced and not-exhausted stale iterators",
                              "C10_rset_history_heapq": "same guard",
                              "C10_rset_iter_correct and all generator theorems": "members non-decreasing (Forall nondec); "
                                                  "heap discipline satisfies heap_contract (proved for heapq.py's algorithms)",
@@ -1281,6 +1438,7 @@ def main():
         "coqchk": coqchk if coqchk is not None else "thorough tier only",
         "refuted_theorems": ["C10_history_unguarded_refuted (witness replayed on the implementation = F-C10-stale)"],
         "anchor_coverage_of_one_shard": cov_summary if have_oracle else {"available": False},
+        "shards": shard_report,
     }
     C.write_evidence(CID, tier, t0, props, cov,
                      ["CPython's _heapq C accelerator implements the algorithms of Lib/heapq.py, which RSetHeapq.v models and "
